@@ -82,6 +82,10 @@ DEFS = {
     # instantiates it with the variable's value) and its summands as a list (binding of SUM/ext when a list grows)
     'wsum': (['row'], 'Sum(q, len(row), W(row[q]))', 'parametric'),
     'w_terms': (['row', 'n'], 'lam(q, n, W(row[q]))', 'parametric'),
+    'var_terms': (['row', 'n'], 'lam(q, n, nu(row[q].lp_var))', 'parametric'),
+    # every student's row is a partial assignment: its variables sum to 0 or 1
+    'rows_partial': (['m'], 'forall(i, 0, len(m.pairs), 0 <= varsum(m.pairs[i]) and varsum(m.pairs[i]) <= 1)'),
+    'pairs_binary': (['m'], 'forall(i, 0, len(m.pairs), forall(c, 0, len(m.pairs[i]), 0 <= nu(m.pairs[i][c].lp_var) and nu(m.pairs[i][c].lp_var) <= 1))'),
     'has_vars': (['rows'], "forall(i, 0, len(rows), forall(c, 0, len(rows[i]), rows[i][c] != None and has(rows[i][c], 'lp_var')))"),
 
     # rows list projects in non-decreasing rank order (ties share a rank)
